@@ -1,5 +1,6 @@
 import TucanProofs.Lemmas.RoundTripPipeline
 import TucanProofs.Lemmas.OracleNonempty
+import TucanProofs.Lemmas.EdgeCount
 import TucanProofs.Examples
 /-!
 # C03 — a TUCAN string reconstructs its molecule and is a fixed point of the pipeline
@@ -19,12 +20,9 @@ theorem C03_roundtrip (order : Graph → List Nat) (hperm : ∀ r : Graph, r.WF 
     (hsize : (natRepr (g.numberOfNodes + 1)).length ≤ intMaxStrDigits)
     (s : Str) (h : tucanOf order g = .ok s) :
     ∃ (H : Graph) (τ : Nat → Nat), graphFromTucan s = .ok H ∧ Iso SameIdent τ g H ∧
-      H.numberOfNodes = g.numberOfNodes ∧ (∀ a ∈ g.labels, (H.nbrs (τ a)).length = (g.nbrs a).length) := by
-  obtain ⟨H, τ, hp, iso, hl, _, _, _⟩ := pipeline_roundtrip order hperm g hw hs hmol hsize s h
-  refine ⟨H, τ, hp, iso, iso.numberOfNodes, ?_⟩
-  intro a ha
-  have := (iso.nbrs a ha).length_eq
-  simpa using this
+      H.numberOfNodes = g.numberOfNodes ∧ H.numberOfEdges = g.numberOfEdges := by
+  obtain ⟨H, τ, hp, iso, hl, Hw, Hs, _⟩ := pipeline_roundtrip order hperm g hw hs hmol hsize s h
+  exact ⟨H, τ, hp, iso, iso.numberOfNodes, iso.numberOfEdges hw hs Hw Hs⟩
 
 /-- the emitted string is accepted by the parser (string level: it lexes and is a sentence of the grammar) -/
 theorem C03_emitted_string_parses (m : Graph)
